@@ -17,6 +17,7 @@ func init() {
 			c17UnsafeViews(c)
 			configReadOnlyRules(c, "C09")
 			negotiateExtensionsRules(c, "C09")
+			headerWriterRules(c, "C09")
 		},
 	})
 }
